@@ -229,15 +229,19 @@ def r2_key(ctx: Ctx) -> None:
                   f'constraint keywords {sorted(kws)} miss {sorted((prims | {"field."}) - kws)}: rules constrained by them do not rank as more specific', r)
         # R3: counted from text?
         text_based = []
+
+        def is_text(e, at) -> bool:
+            """e is (a case-folded copy of) the expression's source text, not something obtained by parsing it"""
+            at_ = fl.atoms(e, at)
+            return f'attr:{rule_p}.match_expr' in at_ and not ({'call:parse_expression', 'call:parse', 'call:walk'} & at_)
         for s in fl.cfg.stmts():
             if isinstance(s, ast.Assign) and isinstance(s.value, ast.Call):
                 for n in ast.walk(s.value):
-                    if isinstance(n, ast.Call) and isinstance(n.func, ast.Attribute) and n.func.attr == 'count' and isinstance(n.func.value, ast.Name):
+                    if isinstance(n, ast.Call) and isinstance(n.func, ast.Attribute) and n.func.attr in ('count', 'find', 'index') and is_text(n.func.value, s):
                         text_based.append(n)
-                    if isinstance(n, ast.Compare) and any(isinstance(o, ast.In) for o in n.ops) and isinstance(n.comparators[0], ast.Name) \
-                            and f'attr:{rule_p}.match_expr' in fl.atoms(n.comparators[0], s):
+                    if isinstance(n, ast.Compare) and any(isinstance(o, ast.In) for o in n.ops) and is_text(n.comparators[0], s):
                         text_based.append(n)
-        uses_ast = any(call_name(c) in ('parse_expression', 'parse', 'walk') for c in fl.calls())
+        uses_ast = False        # a parse elsewhere in the function does not make a substring count structural
         if text_based and not uses_ast:
             ctx.fail('C09.R3', f, 'text-count',
                      f'pattern conditions and constraint kinds are counted by substring search over the expression text ({src(text_based[0])[:40]!r}, …): '
